@@ -2,18 +2,25 @@
 """prints the prompt for an independent mutation agent: ONLY the property text + a scratch worktree path"""
 import json, sys
 pid, wt = sys.argv[1], sys.argv[2]
+wave = sys.argv[3] if len(sys.argv) > 3 else ""
+import glob, os
+used = []
+for d in sorted(glob.glob(f"/verif/seeded/{pid}-m*")):
+    try: used.append("- " + json.load(open(os.path.join(d, "meta.json")))["breaks"][:260])
+    except Exception: pass
+
 p = [json.loads(l) for l in open('/verif/properties.jsonl') if json.loads(l)['id'] == pid][0]
-print(f"""You are testing how well a semantic property of a Go code base is guarded. You work ONLY inside your own scratch git worktree of the repository nuts-foundation/nuts-node at {wt} (a Go decentralized-identity server: did:web/did:nuts, verifiable credentials, OAuth/OpenID4VP auth, gossip-replicated DAG transaction network). Do not read or write anything outside {wt} and /tmp/{pid}_demo (in particular never look at /verif or /repo). The sandbox has no network; for every shell call use: export GOFLAGS=-mod=mod GOPROXY=off GOSUMDB=off GOTOOLCHAIN=local
+print(f"""You are testing how well a semantic property of a Go code base is guarded. You work ONLY inside your own scratch git worktree of the repository nuts-foundation/nuts-node at {wt} (a Go decentralized-identity server: did:web/did:nuts, verifiable credentials, OAuth/OpenID4VP auth, gossip-replicated DAG transaction network). Do not read or write anything outside {wt} and /tmp/{pid}_demo{wave} (in particular never look at /verif or /repo). The sandbox has no network; for every shell call use: export GOFLAGS=-mod=mod GOPROXY=off GOSUMDB=off GOTOOLCHAIN=local
 
 The property (id {pid}): "{p['title']}"
 Statement: {p['statement']}
 It is meant to hold for: {p['quantifier']['text']}
 Files in which the mechanisms live: {', '.join(p['anchors']['files'])}
 
-Your task: produce TWO different, independent, realistic changes (mutations) to the production code (non-test .go files) in {wt}, each of which BREAKS this property while the repository still compiles (`go build ./...`) and the EXISTING tests of the packages you touched still pass unedited (`go test -vet=off -count=1 ./<pkg>/...`). Each change should look like a plausible refactoring slip, optimisation or "simplification" a developer could make (a few lines), and should need something SPECIFIC to manifest — a particular interleaving, a crash or fault at a particular point, a multi-step sequence of operations, an unusual input, or two cooperating sites that each look fine alone — not something ordinary use or the existing tests would expose at once. The two mutations should use different mechanisms / different code sites.
+""" + ("Mutations that other people have ALREADY produced for this property (do not repeat these mechanisms or code sites; find different ones, preferably in other files/functions of the list above or breaking another clause of the statement):\n" + "\n".join(used) + "\n\n" if wave and used else "") + f"""Your task: produce TWO different, independent, realistic changes (mutations) to the production code (non-test .go files) in {wt}, each of which BREAKS this property while the repository still compiles (`go build ./...`) and the EXISTING tests of the packages you touched still pass unedited (`go test -vet=off -count=1 ./<pkg>/...`). Each change should look like a plausible refactoring slip, optimisation or "simplification" a developer could make (a few lines), and should need something SPECIFIC to manifest — a particular interleaving, a crash or fault at a particular point, a multi-step sequence of operations, an unusual input, or two cooperating sites that each look fine alone — not something ordinary use or the existing tests would expose at once. The two mutations should use different mechanisms / different code sites.
 
-For each mutation deliver, under /tmp/{pid}_demo/m1 and /tmp/{pid}_demo/m2:
+For each mutation deliver, under /tmp/{pid}_demo{wave}/m1 and /tmp/{pid}_demo{wave}/m2:
   - patch.diff : `git diff` of the production change only (relative to the worktree's HEAD), applying cleanly with `git apply` at the repository root;
   - a demonstration: a NEW Go test file (give its repository-relative path as the first comment line; it must not already exist) or a small program, which FAILS (or prints VIOLATED) with the change applied and PASSES (prints OK) without it; state the exact command to run it;
   - notes.txt : which part of the property it breaks, what it needs in order to manifest, and the commands you ran with their outcomes (build, existing tests of touched packages with the change, demonstration with and without the change).
-Verify all of that yourself before finishing: (1) change applied: build ok, existing package tests pass, demo fails; (2) change reverted (`git checkout -- .` but keep the demo file): demo passes. Leave the worktree clean (git checkout -- . and remove untracked demo files from it) when done; the deliverables live only in /tmp/{pid}_demo. Finish with a short summary (<= 25 lines) of both mutations.""")
+Verify all of that yourself before finishing: (1) change applied: build ok, existing package tests pass, demo fails; (2) change reverted (`git checkout -- .` but keep the demo file): demo passes. Leave the worktree clean (git checkout -- . and remove untracked demo files from it) when done; the deliverables live only in /tmp/{pid}_demo{wave}. Finish with a short summary (<= 25 lines) of both mutations.""")
